@@ -30,13 +30,26 @@ type c16FCase struct {
 	kind  string // usedby plist cvsid-plain cvsid-mk cvsid-plist
 	arg   string // usedby: the relative name of the including file
 	lines []string
+	noEol bool // the last line is not terminated
 }
 
 func (c c16FCase) content() string {
 	if len(c.lines) == 0 {
 		return ""
 	}
+	if c.noEol {
+		return strings.Join(c.lines, "\n")
+	}
 	return strings.Join(c.lines, "\n") + "\n"
+}
+
+// c16Crlf: the same file with every line ending in \r\n (the \r is part of Line.Text)
+func c16Crlf(ls []string) []string {
+	out := make([]string, len(ls))
+	for i, l := range ls {
+		out[i] = l + "\r"
+	}
+	return out
 }
 
 func (c c16FCase) request(ls []string) string {
@@ -71,7 +84,9 @@ const c16PlistMarker = "${X}/unsortable"
 var c16UsedByAlphabet = []string{"", "#", "# $" + "NetBSD$", "# comment", "# used by " + c16UsedByName, "# used by cat/q/Makefile", "# used by a b", "VAR=\tvalue"}
 
 // further shapes for the line classification (MkLineParser): indented comments, blank lines
-var c16UsedByExtra = []string{" # indented", "\t# after a tab", "   ", "\t", "#VAR=\tcommented", "\t# used by " + c16UsedByName}
+var c16UsedByExtra = []string{" # indented", "\t# after a tab", "   ", "\t", "#VAR=\tcommented", "\t# used by " + c16UsedByName,
+	// lines of a CRLF file: the \r stays in Line.Text
+	"\r", "#\r", "# $" + "NetBSD$\r", "# used by " + c16UsedByName + "\r", "VAR=\tvalue\r"}
 
 var c16PlistAlphabet = []string{"@comment $" + "NetBSD$", "", "bin/a", "man/man1/a.1.gz", "man/man1/b.1", "${PLIST.x}man/man3/c.3.gz",
 	"${PKGMANDIR}/man1/d.1.gz", "man/cat1/e.0.gz.gz", "${PLIST.x}", "@comment c", "${PKGMANDIR}/man1/${PKGMANDIR}/f.1", "man/man1/g.gz", "${PLIST.x}${PLIST.y-z}man/manx/h..gz",
@@ -80,6 +95,7 @@ var c16PlistAlphabet = []string{"@comment $" + "NetBSD$", "", "bin/a", "man/man1
 var c16PlistExtra = []string{"man/man1/i.1.gz", "man/man8/j.8.gz", "${PLIST.y}man/cat5/k.0.gz", "${PKGMANDIR}", "${PKGMANDIR}/man5/l.5", "man/m.1.gz", "man/man1/n-1.gz", "man/man1/sub/o.1.gz",
 	"share/man/man1/p.1.gz", "${PLIST.}man/man1/q.1.gz", "${PLIST.x}bin/r", "lib/s.gz", "man/mann/t.n.gz", "man/man3/u.3.gz.gz.gz", "@pkgdir v",
 	"man/man1/README", "man/man1/w.", "/absolute/x.1.gz", "man/man1/", "man",
+	"@comment $" + "NetBSD$\r", "bin/a\r", "man/man1/a.1.gz\r", "\r", "${PLIST.x}\r", "${PKGMANDIR}/man1/d.1.gz\r", "@unexec rmdir %D/x\r",
 	"@unexec ${RMDIR} %D/share/z", "@unexec rmdir %D/t 2>/dev/null || true", "@unexec\t rmdir", "@unexec echo rmdir", "@exec rmdir %D/u", "@unexec ${RMDIR} /abs", "${PLIST.x}@unexec rmdir %D/v", "@unexec-x rmdir %D/w"}
 
 func c16AllSeqs(alpha []string, maxLen int, f func([]string)) {
@@ -102,7 +118,7 @@ func c16PlistInDomain(ls []string) bool {
 	seen := map[string]bool{}
 	marker := false
 	for _, l := range ls {
-		if l == c16PlistMarker {
+		if l == c16PlistMarker || l == c16PlistMarker+"\r" {
 			marker = true
 		}
 		if l != "" && !strings.HasPrefix(l, "@") && seen[l] {
@@ -120,14 +136,14 @@ func c16FixerCases(ctx *Ctx, rng *Rng) (cases []c16FCase, exhaustiveLen map[stri
 	}
 	exhaustiveLen = map[string]int{"usedby": lu, "plist": lp}
 	c16AllSeqs(c16UsedByAlphabet, lu, func(ls []string) {
-		cases = append(cases, c16FCase{"usedby", c16UsedByName, ls})
+		cases = append(cases, c16FCase{"usedby", c16UsedByName, ls, false})
 	})
 	allU := append(append([]string{}, c16UsedByAlphabet...), c16UsedByExtra...)
 	c16AllSeqs(allU, 3, func(ls []string) {
 		for _, l := range ls {
 			for _, x := range c16UsedByExtra {
 				if l == x {
-					cases = append(cases, c16FCase{"usedby", c16UsedByName, ls})
+					cases = append(cases, c16FCase{"usedby", c16UsedByName, ls, false})
 					return
 				}
 			}
@@ -143,7 +159,7 @@ func c16FixerCases(ctx *Ctx, rng *Rng) (cases []c16FCase, exhaustiveLen map[stri
 				ls[j] = Pick(rng, allU)
 			}
 		}
-		cases = append(cases, c16FCase{"usedby", c16UsedByName, ls})
+		cases = append(cases, c16FCase{"usedby", c16UsedByName, ls, false})
 	}
 	idx := 0
 	c16AllSeqs(c16PlistAlphabet, lp, func(ls []string) {
@@ -152,7 +168,7 @@ func c16FixerCases(ctx *Ctx, rng *Rng) (cases []c16FCase, exhaustiveLen map[stri
 		at := idx % (len(ls) + 1)
 		f := append(append(append([]string{}, ls[:at]...), c16PlistMarker), ls[at:]...)
 		if c16PlistInDomain(f) {
-			cases = append(cases, c16FCase{"plist", "", f})
+			cases = append(cases, c16FCase{"plist", "", f, false})
 		}
 	})
 	all := append(append([]string{}, c16PlistAlphabet...), c16PlistExtra...)
@@ -170,17 +186,32 @@ func c16FixerCases(ctx *Ctx, rng *Rng) (cases []c16FCase, exhaustiveLen map[stri
 			}
 		}
 		if c16PlistInDomain(ls) {
-			cases = append(cases, c16FCase{"plist", "", ls})
+			cases = append(cases, c16FCase{"plist", "", ls, false})
 		}
 	}
 	// the early return of CheckLinesPlist: nothing but the CVS id
-	cases = append(cases, c16FCase{"plist", "", []string{"@comment $" + "NetBSD$"}}, c16FCase{"plist", "", []string{"@comment $" + "NetBSD: PLIST,v 1.1 2020/01/01 00:00:00 u Exp $"}})
+	cases = append(cases, c16FCase{"plist", "", []string{"@comment $" + "NetBSD$"}, false}, c16FCase{"plist", "", []string{"@comment $" + "NetBSD: PLIST,v 1.1 2020/01/01 00:00:00 u Exp $"}, false})
 	firsts := []string{"$" + "NetBSD$", "# $" + "NetBSD$", "#\t $" + "NetBSD: x $", "#$" + "NetBSD$", "@comment $" + "NetBSD$", "@comment  $" + "NetBSD$",
 		"$" + "NetBSD: a$b $", "$" + "NetBSD:$", "", "x", "# $" + "NetBSD", "@comment $" + "NetBSD: f,v 1.1 $", "#  $" + "NetBSD: Makefile,v 1.2 2020/01/01 00:00:00 u Exp $", " # $" + "NetBSD$"}
 	for _, k := range []string{"cvsid-plain", "cvsid-mk", "cvsid-plist"} {
-		cases = append(cases, c16FCase{k, "", nil})
+		cases = append(cases, c16FCase{k, "", nil, false})
 		for _, f := range firsts {
-			cases = append(cases, c16FCase{k, "", []string{f}}, c16FCase{k, "", []string{f, ""}}, c16FCase{k, "", []string{f, "y", "$" + "NetBSD$"}})
+			cases = append(cases, c16FCase{k, "", []string{f}, false}, c16FCase{k, "", []string{f, ""}, false}, c16FCase{k, "", []string{f, "y", "$" + "NetBSD$"}, false})
+		}
+	}
+	// terminators: for a sample of all cases the same file entirely CRLF, and with an unterminated last line
+	n0 := len(cases)
+	for i := 0; i < n0; i += 5 {
+		c := cases[i]
+		if len(c.lines) == 0 {
+			continue
+		}
+		cases = append(cases, c16FCase{c.kind, c.arg, c16Crlf(c.lines), false})
+		if c.lines[len(c.lines)-1] != "" { // an unterminated last line is never empty
+			cases = append(cases, c16FCase{c.kind, c.arg, c.lines, true})
+		}
+		if i%10 == 0 {
+			cases = append(cases, c16FCase{c.kind, c.arg, c16Crlf(c.lines), true})
 		}
 	}
 	return cases, exhaustiveLen
@@ -255,6 +286,37 @@ func c16Fixers(ctx *Ctx, res *Result, rng *Rng) {
 	for i, c := range cases {
 		reals[i] = c.real(c16FixerPasses)
 	}
+	// load_file / save_file of the model against the bytes: what the real SaveAutofixChanges wrote in
+	// pass 1 must load (model) to the texts the model predicted, and the input file itself to the
+	// lines it was made of; save_file of these lines gives the input bytes back
+	{
+		var lreq []string
+		var lidx []int
+		for i, c := range cases {
+			if i%3 == 0 && len(reals[i]) > 0 && reals[i][0].Panic == "" && chains[i].status[1] == "ok" {
+				lreq = append(lreq, "load "+hx(reals[i][0].After), "load "+hx(c.content()), "save "+bit(!c.noEol)+" "+fmt.Sprint(len(c.lines))+c16HexLines(c.lines))
+				lidx = append(lidx, i)
+			}
+		}
+		lans, err := runOracle(ctx, "c16", lreq)
+		if err != nil {
+			res.Broken = err.Error()
+			return
+		}
+		for j, i := range lidx {
+			c := cases[i]
+			wantAfter := strings.TrimSpace(fmt.Sprint(len(chains[i].ls[1])) + c16HexLines(chains[i].ls[1]))
+			gotAfter := strings.TrimSpace(lans[3*j][2:])
+			wantIn := bit(!c.noEol || len(c.lines) == 0) + " " + strings.TrimSpace(fmt.Sprint(len(c.lines))+c16HexLines(c.lines))
+			if gotAfter != wantAfter || strings.TrimSpace(lans[3*j+1]) != wantIn || unhx(strings.TrimSpace(lans[3*j+2])) != c.content() {
+				res.AddViolation(Violation{Key: "C16/correspondence/load-save", FoundInput: false, Size: len(c.content()),
+					What:   fmt.Sprintf("%s %q: load_file of the saved file %q gives %q, the model of the fixer %q; load_file of the input %q (expected %q); save_file %q", c.kind, c.lines, reals[i][0].After, gotAfter, wantAfter, lans[3*j+1], wantIn, lans[3*j+2]),
+					Replay: map[string]any{"kind": "fixer", "fixer": c.kind, "arg": c.arg, "lines": hx(strings.Join(c.lines, "\n")), "nlines": len(c.lines), "no_eol": c.noEol, "broken": "correspondence Model/Settle.v load_file/save_file = Load/SaveAutofixChanges"}})
+				break
+			}
+			res.Count("fixers.load_file/save_file compared with the bytes on disk", 1)
+		}
+	}
 	reported := map[string]bool{}
 	for i, c := range cases {
 		ch := chains[i]
@@ -262,6 +324,12 @@ func c16Fixers(ctx *Ctx, res *Result, rng *Rng) {
 		res.Evaluations++
 		res.TracesValidated++
 		res.Count("fixers."+c.kind+" cases", 1)
+		if c.noEol {
+			res.Count("fixers."+c.kind+" cases with an unterminated last line", 1)
+		}
+		if len(c.lines) > 0 && strings.HasSuffix(c.lines[0], "\r") {
+			res.Count("fixers."+c.kind+" cases whose first line ends in CR LF", 1)
+		}
 		changedPasses := 0
 		mismatch := ""
 		prev := c.content()
@@ -283,9 +351,11 @@ func c16Fixers(ctx *Ctx, res *Result, rng *Rng) {
 				mismatch = fmt.Sprintf("pass %d: the Go code panics (%s), the model does not", p, r.Panic)
 				break
 			}
+			// the model speaks about the texts of the re-loaded file; if every line of the
+			// input was terminated, so is every line of the output: compare the bytes
 			want := c16FCase{lines: ch.ls[p]}.content()
-			if r.After != want {
-				mismatch = fmt.Sprintf("pass %d: the file is %q, the model says %q", p, r.After, want)
+			if !c.noEol && r.After != want || c.noEol && strings.Join(c16SplitLines(r.After), "\n") != strings.Join(ch.ls[p], "\n") {
+				mismatch = fmt.Sprintf("pass %d: the file is %q, the model says the lines %q", p, r.After, ch.ls[p])
 				break
 			}
 			logged := strings.Contains(r.Stdout, "AUTOFIX:")
@@ -317,7 +387,7 @@ func c16Fixers(ctx *Ctx, res *Result, rng *Rng) {
 			continue
 		}
 		// disagreement: evaluate the specification on the implementation
-		rep := map[string]any{"kind": "fixer", "fixer": c.kind, "arg": c.arg, "lines": hx(strings.Join(c.lines, "\n")), "nlines": len(c.lines)}
+		rep := map[string]any{"kind": "fixer", "fixer": c.kind, "arg": c.arg, "lines": hx(strings.Join(c.lines, "\n")), "nlines": len(c.lines), "no_eol": c.noEol}
 		key, what, found := c16JudgeFixer(c)
 		if !found {
 			key = "C16/correspondence/" + c.kind
@@ -395,6 +465,14 @@ func c16FixerFloors(res *Result) {
 			res.Broken = fmt.Sprintf("%s: %d < %d", f.k, get(f.k), f.n)
 		}
 	}
+}
+
+func c16HexLines(ls []string) string {
+	var sb strings.Builder
+	for _, l := range ls {
+		sb.WriteString(" " + hx(l))
+	}
+	return sb.String()
 }
 
 func c16CoqStr(s string) string {
@@ -490,7 +568,8 @@ func c16ReplayFixer(ctx *Ctx, res *Result, rep map[string]any) {
 	if n, _ := rep["nlines"].(float64); n > 0 {
 		lines = strings.Split(unhx(ls), "\n")
 	}
-	c := c16FCase{kind, arg, lines}
+	noEol, _ := rep["no_eol"].(bool)
+	c := c16FCase{kind, arg, lines, noEol}
 	fmt.Printf("== %s %q, file:\n%s", kind, arg, c.content())
 	for p, r := range c.real(6) {
 		fmt.Printf("== pass %d%s\n%s-- file: %q\n", p+1, map[bool]string{true: " PANIC " + r.Panic}[r.Panic != ""], r.Stdout, r.After)
